@@ -161,6 +161,12 @@ def launches(res, ctx, rng):
         # records of related but different kinds must not be listed
         if rng.random() < 0.5:
             nested.insert(rng.randrange(len(nested) + 1), H.uuid_record('DYLD_uuid_unmap_a', rng.randbytes(16), 5))
+            if recs:
+                # ... also when it repeats the very words of a map record of this window (the image taken out again):
+                # the launch lists the records of the two map kinds, a record of another kind is not one of them
+                c, u, a = rng.choice(recs)
+                at = max((k for k, x in enumerate(nested) if x[0] in ('DYLD_uuid_map_a', 'DYLD_uuid_shared_cache_a')), default=0)
+                nested.insert(rng.randrange(at + 1, len(nested) + 1), H.uuid_record('DYLD_uuid_unmap_a', u, a))
             nested.insert(rng.randrange(len(nested) + 1), H.A('DYLD_uuid_map_b', H.NONE, (1, 2, 3, 4)))
         mh = rng.getrandbits(40)
         seq = H.launch(mh, nested)
